@@ -53,10 +53,46 @@ def returns(paths): return [p for p in paths if p.outcome == 'return']
 def raises(paths): return [p for p in paths if p.outcome == 'raise']
 
 
+class _MergedEx:
+    """executor record of several merged paths: writes / call-site obligations of all of them"""
+    def __init__(s, exs):
+        s._first = exs[0]
+        s.ext_writes = [w for e in exs for w in e.ext_writes]
+        s.requires = [r for e in exs for r in getattr(e, 'requires', [])]
+        s.calls = [c for e in exs for c in getattr(e, 'calls', [])]
+    def __getattr__(s, k): return getattr(s._first, k)
+
+
+def _merge_values(guards, vals, what):
+    from ..symex import Obj as _Obj
+    v0 = vals[0]
+    if all(v is v0 for v in vals): return v0
+    num = lambda v: isinstance(v, T) or (isinstance(v, (int, float)) and not isinstance(v, bool))
+    if all(num(v) for v in vals):
+        res = lift(vals[-1])
+        for g, v in reversed(list(zip(guards[:-1], vals[:-1]))): res = ite(g, lift(v), res)
+        return res
+    if all(isinstance(v, _Obj) and v.cls == v0.cls and set(v.f) == set(v0.f) for v in vals):
+        o = _Obj(v0.cls, {k: _merge_values(guards, [v.f[k] for v in vals], what) for k in v0.f})
+        return o
+    if all(isinstance(v, tuple) and len(v) == len(v0) for v in vals):
+        return tuple(_merge_values(guards, [v[i] for v in vals], what) for i in range(len(v0)))
+    if all(type(v) is type(v0) and not isinstance(v, (T, _Obj, tuple)) and v == v0 for v in vals): return v0
+    raise Unsupported("expected exactly one normal path for %s, found %d (results of different shapes cannot be merged)" % (what, len(vals)))
+
+
 def only_return(paths, what=""):
+    """the single normal path; several normal paths (a branch the analysed function takes on its inputs) are merged into one path
+    whose result is the case distinction ite(guard_i, value_i) and whose condition is the common prefix + the disjunction of the guards"""
     r = returns(paths)
-    if len(r) != 1: raise Unsupported("expected exactly one normal path for %s, found %d" % (what, len(r)))
-    return r[0]
+    if len(r) == 1: return r[0]
+    if not r or len(r) > 8: raise Unsupported("expected exactly one normal path for %s, found %d" % (what, len(r)))
+    from ..symex import Path as _Path
+    n = 0
+    while all(len(p.pc) > n for p in r) and all(p.pc[n] is r[0].pc[n] for p in r): n += 1
+    guards = [band(*p.pc[n:]) for p in r]
+    val = _merge_values(guards, [p.value for p in r], what)
+    return _Path(list(r[0].pc[:n]) + [bor(*guards)], 'return', val, _MergedEx([p.ex for p in r]))
 
 
 def call(src, qual, args=(), kwargs=None, self_obj=None, inline=True):
